@@ -154,17 +154,41 @@ def observe (sy : Sys) (s : St) : String :=
 def seqSchedule (sy : Sys) : List Nat :=
   (List.range sy.names.length).flatMap (fun t => List.replicate (fuelOf sy t) t)
 
-/-- lock / access skeleton of the model's sections, for comparison with the Go source -/
+/-- lock / access skeleton of the model's sections in the vocabulary of harness/c11/skel (which extracts the same
+    from the Go source).  The section bodies come from `Conc.bodyOf` / `Conc.wscript`, so the strings change when the
+    model changes. -/
+def tokMI (inReplace : Bool) : MI → String
+  | .write (.restore _) => if inReplace then "get-patches unpatchValue" else "if-applied{ WriteTo }"
+  | .unregister _ => ""                                   -- the delete inside unpatchValue (monkey.go:157)
+  | .register _ _ => "set-patches genJumpData get-patches checkAndReadOriginBytes"
+  | .write (.tramp _) => "fixOrigin"
+  | .setApplied _ => "set-applied"
+  | .write (.jump _) => "WriteTo"
+
+def tokW : WStep → String
+  | .protW _ => "mprotect-RWX writeTo"     -- writeTo: darwin fallback inside the error branch (mwrite_amd64.go:26)
+  | .copy => "copy"
+  | .protX _ => "mprotect-RX"
+
+def joinToks (l : List String) : String := " ".intercalate (l.filter (· ≠ ""))
+
 def skel : String → Option String
-  | "replaceFunc" => some "lock defer-unlock unpatchValue set-patches RawRead fixOrigin"
-  | "Apply" => some "lock defer-unlock set-applied WriteTo"
-  | "UnpatchWithLock" => some "lock defer-unlock Unpatch"
-  | "Unpatch" => some "if-applied WriteTo"
-  | "unpatchValue" => some "get-patches unpatch delete-patches"
-  | "WriteTo" => some "Lock defer-Unlock mprotect-RWX copy mprotect-RX"
-  | "RawRead" => some "RLock defer-RUnlock copy"
-  | "mProtectCrossPage" => some "for-pages Mprotect"
-  | "GetFuncSize" => some "Lock defer-Unlock-set-cache get-cache RawRead"
+  | "patch.go:lock" => some "patchesLock.Lock"
+  | "patch.go:unlock" => some "patchesLock.Unlock"
+  | "patch.go:m:replaceFunc" => some (joinToks (["lock", "defer-unlock"] ++ (bodyOf (.replace 0 (.ret 0) true)).map (tokMI true)))
+  | "guard.go:m:Apply" => some (joinToks (["lock", "defer-unlock"] ++ (bodyOf (.apply 0)).map (tokMI false)))
+  | "guard.go:m:UnpatchWithLock" => some "lock defer-unlock Unpatch"
+  | "guard.go:m:Unpatch" => some (joinToks ((bodyOf (.unpatch 0)).map (tokMI false)))
+  | "guard.go:m:Restore" => some "lock defer-unlock if-applied{ WriteTo }"          -- not reachable from the builder API
+  | "monkey.go:unpatchValue" => some "get-patches unpatch delete-patches"             -- = [write restore, unregister]
+  | "monkey.go:Unpatch" => some "unpatchValue"                                        -- NO lock: outside the builder API
+  | "monkey.go:UnpatchAll" => some "range-patches unpatch delete-patches"             -- NO lock: outside the builder API
+  | "mwrite_amd64.go:WriteTo" =>
+      some (joinToks (["memoryAccessLock.Lock", "defer-memoryAccessLock.Unlock"] ++ (wscript layout (.jump 0)).map tokW))
+  | "mwrite_unix.go:mProtectCrossPage" => some "for Mprotect"
+  | "memory.go:RawRead" => some "memoryAccessLock.RLock defer-memoryAccessLock.RUnlock copy"
+  | "func_amd64.go:GetFuncSize" =>
+      some "funcSizeReadLock.Lock defer{ set-funcSizeCache funcSizeReadLock.Unlock } get-funcSizeCache RawRead for RawRead"
   | _ => none
 
 def handle (toks : List String) : Option String :=
